@@ -2,6 +2,8 @@
 package h04
 
 import (
+	"github.com/golang/protobuf/proto"
+
 	pb "github.com/xuperchain/xupercore/bcs/ledger/xledger/xldgpb"
 	"github.com/xuperchain/xupercore/zzverif/vrt"
 	"github.com/xuperchain/xupercore/zzverif/vrt/vkit"
@@ -19,9 +21,11 @@ type node struct {
 }
 
 type tree struct {
-	nodes []*node
-	tip   int
-	desc  map[string][]byte // transaction id -> its (arbitrary) description bytes
+	nodes   []*node
+	tip     int
+	refused [][]byte          // ids of blocks the ledger refused: never stored, whatever is confirmed later
+	ghost   []string          // transactions that only refused blocks carried
+	desc    map[string][]byte // transaction id -> its (arbitrary) description bytes
 }
 
 func (t *tree) trunk() []int {
@@ -112,6 +116,14 @@ func checkAll(e *vkit.Env, t *tree, when string) {
 			}
 		}
 	}
+	for _, id := range t.refused {
+		vrt.Assert(!l.ExistBlock(id), "refused-block-is-never-stored")
+		_, err := l.QueryBlockHeader(id)
+		vrt.Assert(err != nil, "refused-block-is-never-served")
+	}
+	for _, txid := range t.ghost {
+		vrt.Assert(!l.IsTxInTrunk([]byte(txid)), "transaction-of-a-refused-block-is-not-on-the-main-chain")
+	}
 	_ = when
 }
 
@@ -158,7 +170,9 @@ func checkPaths(e *vkit.Env, t *tree) {
 
 // run: N blocks after genesis; the parent of each is an arbitrary earlier
 // block; each carries a coinbase and optionally a shared transaction.
-func run(N int, truncate bool) {
+func run(N int, truncate bool) { runWith(N, truncate, false) }
+
+func runWith(N int, truncate, invalid bool) {
 	e := vkit.NewEnv("c04", vkit.Genesis("0", "100", "50"), nil)
 	t := &tree{desc: map[string][]byte{}}
 	t.nodes = append(t.nodes, &node{id: string(e.Root.Blockid), parent: -1, height: 0, txs: []string{string(e.RootTx.Txid)}, blk: e.Root})
@@ -166,6 +180,32 @@ func run(N int, truncate bool) {
 	shared := &pb.Transaction{Txid: []byte("shared-tx"), Version: 1, Desc: []byte("s")}
 	for i := 1; i <= N; i++ {
 		p := vrt.Choice("parent", len(t.nodes))
+		if invalid {
+			// before the i-th valid block: optionally a block the ledger must refuse
+			tag := string([]byte{byte('0' + i)})
+			switch vrt.Choice("refused-kind", 4) {
+			case 1: // two coinbases
+				bad := vkit.Block([]byte(t.nodes[p].id), int32(40+i), []*pb.Transaction{vkit.Coinbase("xa"+tag, "M", []byte{7}), vkit.Coinbase("xb"+tag, "M", []byte{7})})
+				vrt.Assert(!e.L.ConfirmBlock(bad, false).Succ, "block-with-two-coinbases-refused")
+				t.refused = append(t.refused, bad.Blockid)
+				t.ghost = append(t.ghost, "xa"+tag, "xb"+tag)
+				checkAll(e, t, "refused")
+			case 2: // unknown parent
+				bad := vkit.Block([]byte("no-such-parent"), int32(50+i), []*pb.Transaction{vkit.Coinbase("xc"+tag, "M", []byte{7})})
+				vrt.Assert(!e.L.ConfirmBlock(bad, false).Succ, "block-with-unknown-parent-refused")
+				t.refused = append(t.refused, bad.Blockid)
+				t.ghost = append(t.ghost, "xc"+tag)
+				checkAll(e, t, "refused")
+			case 3: // a stored block submitted again: whatever the ledger answers, nothing may change
+				if p > 0 {
+					dup := proto.Clone(t.nodes[p].blk).(*pb.InternalBlock)
+					st := e.L.ConfirmBlock(dup, false)
+					vrt.Cover("duplicate-submitted", true)
+					_ = st
+					checkAll(e, t, "duplicate")
+				}
+			}
+		}
 		withShared := vrt.Choice("shared", 2) == 1
 		cb := vkit.Coinbase("cb"+string([]byte{byte('0' + i)}), "M", []byte{7})
 		cb.Desc = vrt.Bytes("desc", 2) // arbitrary content
@@ -203,7 +243,9 @@ func run(N int, truncate bool) {
 			t.tip = len(t.nodes) - 1
 		}
 		vrt.Cover("fork", st.Split)
-		vrt.Cover("trunk-switch", st.TrunkSwitch)
+		if N >= 3 {
+			vrt.Cover("trunk-switch", st.TrunkSwitch)
+		}
 		checkAll(e, t, "confirm")
 	}
 	checkPaths(e, t)
@@ -247,3 +289,4 @@ func run(N int, truncate bool) {
 func VerifC04Quick()    { run(3, false) }
 func VerifC04Thorough() { run(5, false) }
 func VerifC04Truncate() { run(3, true) }
+func VerifC04Refused()  { runWith(2, false, true) }
